@@ -87,9 +87,7 @@ Proof. intros H. induction l; cbn; auto. rewrite !andb_true_iff. intros [? ?]; a
 Lemma hexval_range b : is_hex b = true -> 0 <= hexval b <= 15.
 Proof.
   intros H. unfold hexval. brk.
-  destruct (is_digit b) eqn:Ed; [unfold is_digit, in_range in Ed; brk; lia|].
-  destruct (in_range 97 102 b) eqn:El; [unfold in_range in El; brk; lia|].
-  unfold is_digit, in_range in Ed, El. brk. lia.
+  destruct (Z.leb_spec 48 b), (Z.leb_spec b 57), (Z.leb_spec 97 b), (Z.leb_spec b 102); cbn; lia.
 Qed.
 
 Lemma hexval_digit b : is_hex b = true -> hexval b = hex_digit b.
@@ -154,12 +152,13 @@ Lemma hex_int_effs c : Forall (fun d => d = 102 \/ d = 70) c -> hex_int c = 16 ^
 Proof.
   unfold hex_int. induction 1 as [|d r Hd _ IH]; [reflexivity|].
   cbn [fold_left length]. rewrite hex_fold_acc, IH, Nat2Z.inj_succ, Z.pow_succ_r by lia.
-  assert (hexval d = 15) as -> by (destruct Hd; subst d; reflexivity). ring.
+  assert (Hx : hexval d = 15) by (destruct Hd; subst d; reflexivity). rewrite Hx.
+  generalize (16 ^ Z.of_nat (Datatypes.length r)). intros P. lia.
 Qed.
 
 Lemma scale_component_zero c : c <> [] -> Forall (fun d => d = 48) c -> scale_component c = Some 0.
 Proof.
-  intros Hne H. unfold scale_component. destruct c; [congruence|]. cbn [is_nil].
+  intros Hne H. unfold scale_component. destruct c as [|b c]; [congruence|]. cbn [is_nil].
   replace (forallb is_hex (b :: c)) with true.
   - now rewrite hex_int_zeros.
   - symmetry. apply forallb_forall. intros x Hx. rewrite Forall_forall in H.
@@ -281,7 +280,7 @@ Proof.
   apply andb_true_iff in H as [Hh Hw].
   apply wf_digits_facts in Hh as [Nh Dh]. apply wf_digits_facts in Hw as [Nw Dw].
   unfold parse_xtwinops, print_winops. cbn [fst snd]. rewrite <- !app_assoc.
-  rewrite strip_app. rewrite span_app; auto. rewrite is_nil_false by auto.
+  rewrite (app_assoc CSI). rewrite strip_app. rewrite span_app; auto. rewrite is_nil_false by auto.
   cbn [app]. rewrite span_app; auto. now rewrite is_nil_false by auto.
 Qed.
 
@@ -305,12 +304,12 @@ Proof.
   unfold wf_xtv, nonempty. intros H Hf.
   repeat (apply andb_true_iff in H as [H ?]).
   unfold parse_xtversion, print_xtv. rewrite <- !app_assoc.
-  change (DCS ++ bs ">|" ++ ?r) with ((DCS ++ bs ">|") ++ r). rewrite strip_app.
+  rewrite (app_assoc DCS). rewrite strip_app.
   rewrite span_app; auto.
   2:{ cbn. destruct (x_open x); reflexivity. }
   rewrite is_nil_false by (destruct (x_name x); [discriminate|congruence]).
   cbn [app].
-  replace ((if x_open x then 40 else 32) =? 40) || ((if x_open x then 40 else 32) =? 32)
+  replace (((if x_open x then 40 else 32) =? 40) || ((if x_open x then 40 else 32) =? 32))
     with true by (destruct (x_open x); reflexivity).
   rewrite ver_match_app; auto.
   - destruct (x_close x), (x_bel x); cbn; try reflexivity.
@@ -332,18 +331,21 @@ Proof.
   - replace (starts_with ST ((c' :: m') ++ ST ++ rest)) with false.
     + rewrite IH; auto. discriminate.
     + cbn in Hm. apply andb_true_iff in Hm as [Hc' _]. apply andb_true_iff in Hc' as [Hc' _].
-      apply negb_true_iff in Hc'. unfold starts_with. cbn. rewrite Z.eqb_sym. now rewrite Hc'.
+      apply negb_true_iff in Hc'. unfold starts_with, ST. cbn [app strip].
+      rewrite Z.eqb_sym, Hc'. reflexivity.
 Qed.
 
 Lemma parse_kitty_print k rest : wf_kitty k = true ->
   parse_kitty_reply (print_kitty k ++ rest) = Some (k_id k, k_msg k).
 Proof.
-  unfold wf_kitty, nonempty. intros H.
-  repeat (apply andb_true_iff in H as [H ?]).
+  unfold wf_kitty. intros H.
+  apply andb_true_iff in H as [H H3]. apply andb_true_iff in H as [H H1].
+  apply andb_true_iff in H as [H H2]. unfold nonempty in H1.
   apply wf_digits_facts in H as [Nid Did].
   unfold parse_kitty_reply, print_kitty. rewrite <- !app_assoc.
-  change (APC ++ bs "Gi=" ++ ?r) with ((APC ++ bs "Gi=") ++ r). rewrite strip_app.
+  rewrite (app_assoc APC). rewrite strip_app.
   assert (Hm : k_msg k <> []) by (destruct (k_msg k); [discriminate|congruence]).
+  rename H3 into H0.
   destruct (k_num k) as [n|].
   - apply wf_digits_facts in H2 as [Nn Dn].
     rewrite span_app; auto. rewrite is_nil_false by auto.
@@ -365,8 +367,17 @@ Definition rgb_body (r : rgb_reply) : list byte := c_r r ++ [47] ++ c_g r ++ [47
 
 Lemma wf_comp_facts c : wf_comp c = true -> c <> [] /\ forallb is_hex c = true.
 Proof.
-  unfold wf_comp, nonempty. intros H. repeat (apply andb_true_iff in H as [H ?]).
+  unfold wf_comp. intros H. apply andb_true_iff in H as [H H2]. apply andb_true_iff in H as [H H1].
   split; auto. destruct c; [discriminate|congruence].
+Qed.
+
+Lemma wf_rgb_facts r : wf_rgb r = true ->
+  (c_r r <> [] /\ forallb is_hex (c_r r) = true) /\
+  (c_g r <> [] /\ forallb is_hex (c_g r) = true) /\
+  (c_b r <> [] /\ forallb is_hex (c_b r) = true).
+Proof.
+  unfold wf_rgb. intros H. apply andb_true_iff in H as [H H3]. apply andb_true_iff in H as [H1 H2].
+  repeat split; now apply wf_comp_facts.
 Qed.
 
 Lemma match_rgb_print n r rest : wf_digits n = true -> wf_rgb r = true ->
@@ -375,16 +386,14 @@ Lemma match_rgb_print n r rest : wf_digits n = true -> wf_rgb r = true ->
   = Some ((n, bs "rgb:" ++ rgb_body r), length (print_rgb n r)).
 Proof.
   intros Hn Hr. apply wf_digits_facts in Hn as [Nn Dn].
-  unfold wf_rgb in Hr. repeat (apply andb_true_iff in Hr as [Hr ?]).
-  apply wf_comp_facts in Hr as [N1 H1]. apply wf_comp_facts in H as [N3 H3].
-  apply wf_comp_facts in H0 as [N2 H2].
+  apply wf_rgb_facts in Hr as ([N1 H1] & [N2 H2] & [N3 H3]).
   assert (Hhead : head_not (fun b => is_hex b || (b =? 47)) (terminator (c_bel r) ++ rest) = true)
     by (destruct (c_bel r); reflexivity).
   split; [exact Hhead|].
   unfold match_rgb_at, print_rgb. rewrite <- !app_assoc. rewrite strip_app.
   rewrite span_app; auto. rewrite is_nil_false by auto.
   change (bs ";rgb:" ++ ?x) with (59 :: bs "rgb:" ++ x).
-  rewrite strip_app.
+  cbv beta iota. rewrite strip_app.
   assert (Hb : forallb (fun b => is_hex b || (b =? 47)) (rgb_body r) = true).
   { unfold rgb_body. rewrite !forallb_app. cbn.
     rewrite !(forallb_impl is_hex (fun b => is_hex b || (b =? 47))); auto;
@@ -395,7 +404,9 @@ Proof.
   rewrite span_app; auto.
   rewrite is_nil_false by (unfold rgb_body; destruct (c_r r); [congruence|discriminate]).
   rewrite st_or_bel_terminator. do 2 f_equal.
-  unfold rgb_body. rewrite !app_length. cbn [length]. lia.
+  unfold rgb_body. change (59 :: bs "rgb:" ++ ?x) with ((59 :: bs "rgb:") ++ x).
+  rewrite !app_length. change (length OSC) with 2%nat.
+  change (length (59 :: bs "rgb:")) with 5%nat. cbn [length]. lia.
 Qed.
 
 Lemma findall_skip rest : forall a, findall_rgb (a ++ rest) (length a) = findall_rgb rest 0.
@@ -417,9 +428,7 @@ Qed.
 
 Lemma x_parse_color_wf r : wf_rgb r = true -> x_parse_color (bs "rgb:" ++ rgb_body r) = Some (exp_rgb r).
 Proof.
-  intros Hr. unfold wf_rgb in Hr. repeat (apply andb_true_iff in Hr as [Hr ?]).
-  apply wf_comp_facts in Hr as [N1 H1]. apply wf_comp_facts in H as [N3 H3].
-  apply wf_comp_facts in H0 as [N2 H2].
+  intros Hr. apply wf_rgb_facts in Hr as ([N1 H1] & [N2 H2] & [N3 H3]).
   destruct (x_parse_color_range_lemma (c_r r) (c_g r) (c_b r)) as (x & y & z & E & Ev & _); auto.
   unfold rgb_spec in E. unfold rgb_body. rewrite E. unfold exp_rgb. now rewrite Ev.
 Qed.
@@ -477,9 +486,9 @@ Lemma kitty_reply_ok_iff resp :
 Proof.
   unfold kitty_reply_ok. split.
   - destruct resp as [[|x r]|]; try discriminate.
-    destruct (parse_kitty_reply (x :: r)) as [[id msg]|]; [|discriminate].
+    destruct (parse_kitty_reply (x :: r)) as [[id msg]|] eqn:E; [|discriminate].
     intros H. apply andb_true_iff in H as [H1 H2]. apply beq_eq in H1, H2. subst.
-    eexists; split; reflexivity.
+    eexists; split; [reflexivity|exact E].
   - intros (r & -> & E). destruct r as [|x r]; [vm_compute in E; discriminate|].
     rewrite E. reflexivity.
 Qed.
